@@ -267,6 +267,136 @@ theorem proto_empty (e : Env) (b : Buf) (limit : Nat) (h : b.data ++ e.data = []
     refine ⟨b1, e1, rfl, ?_⟩
     rw [hs.1, hb, he]; rfl
 
+/-! ### a stream that ends inside a message -/
+
+/-- the prefix scan over bytes that all carry the continuation bit and then run out: io.EOF,
+with everything that arrived kept in the buffer. -/
+theorem scanPrefix_short (W : Bytes) (hW : ∀ c ∈ W, 128 ≤ c.toNat) :
+    ∀ (fuel i : Nat) (e : Env) (b : Buf), i ≤ W.length → W.length < i + fuel →
+      b.data ++ e.data = W →
+      ∃ b1 e1, scanPrefix fuel i e b = (b1, some .eof, e1) ∧ b1.data = W := by
+  intro fuel
+  induction fuel with
+  | zero => intro i e b h1 h2; omega
+  | succ fuel ih =>
+    intro i e b hi hf hc0
+    unfold scanPrefix
+    have hs := fill_spec e b i
+    generalize hfill : fill e b i = r at hs
+    obtain ⟨b1, res, e1⟩ := r
+    simp only at hs
+    obtain ⟨hc, hok, herr⟩ := hs
+    rw [hc0] at hc
+    cases res with
+    | some err =>
+      obtain ⟨h1, hemp, _⟩ := herr err rfl
+      subst h1
+      rw [hemp, List.append_nil] at hc
+      exact ⟨b1, e1, rfl, hc⟩
+    | none =>
+      have hlt := hok rfl
+      have hiW : i < W.length := by
+        have : b1.data.length ≤ W.length := by rw [← hc]; simp
+        omega
+      have hget : b1.data[i]? = some W[i] := by
+        have : (b1.data ++ e1.data)[i]? = W[i]? := by rw [hc]
+        rw [List.getElem?_append_left hlt] at this
+        rw [this]; simp [hiW]
+      simp only [hget]
+      have hge := hW W[i] (List.getElem_mem hiW)
+      have : ¬ (W[i].toNat < 128) := by omega
+      simp only [this, if_false]
+      exact ih (i + 1) e1 b1 (by omega) (by omega) hc
+
+/-- **Truncation law** of `CodecProto`: if the bytes still to come are a proper, non-empty
+prefix of `WriteNext(m)` (the stream ends inside the length prefix or inside the message),
+`ReadNext` reports an error with `n = 0` — io.EOF only while still inside the prefix, and
+then with the partial prefix left in the buffer — never a message. -/
+theorem proto_truncated (e : Env) (b : Buf) (limit : Nat) (m : Bytes) (k : Nat)
+    (hk1 : 0 < k) (hk2 : k < (protoWriteNext m).length)
+    (hW : b.data ++ e.data = (protoWriteNext m).take k)
+    (hlim : m.length ≤ limit) (hint : m.length ≤ maxInt) :
+    ∃ dst err e', protoReadNext e b limit = (.ok ⟨dst, 0, some err⟩, e') ∧
+      (err = .eof → 0 < dst.data.length) := by
+  have hv : m.length < 2 ^ 64 := by unfold maxInt at hint; omega
+  obtain ⟨pre, last, hP, hlast, hpre, hplen⟩ := putVarint_shape m.length hv
+  have hwn : protoWriteNext m = pre ++ ([last] ++ m) := by rw [protoWriteNext, hP]; simp
+  have hwl : (protoWriteNext m).length = pre.length + 1 + m.length := by rw [hwn]; simp; omega
+  by_cases hin : k ≤ pre.length
+  · -- the stream ends inside the length prefix
+    have hWk : b.data ++ e.data = pre.take k := by
+      rw [hW, hwn, List.take_append_of_le_length hin]
+    have hall : ∀ c ∈ pre.take k, 128 ≤ c.toNat := fun c hc => hpre c (List.mem_of_mem_take hc)
+    have hl : (pre.take k).length = k := by simp; omega
+    obtain ⟨b1, e1, hscan, hb1⟩ := scanPrefix_short (pre.take k) hall 10 0 e b (by omega) (by omega) hWk
+    unfold protoReadNext
+    rw [hscan]
+    exact ⟨b1, .eof, e1, rfl, fun _ => by rw [hb1, hl]; exact hk1⟩
+  · -- the prefix is complete, the message is not
+    have hj : k - (pre.length + 1) < m.length := by omega
+    have hW' : b.data ++ e.data = pre ++ [last] ++ m.take (k - (pre.length + 1)) := by
+      rw [hW, hwn, List.take_append, List.take_of_length_le (by omega), List.take_append]
+      have : k - pre.length - 1 = k - (pre.length + 1) := by omega
+      simp [List.take_of_length_le (show [last].length ≤ k - pre.length by simp; omega), this]
+    obtain ⟨b1, e1, hscan, hc, hlen⟩ :=
+      scanPrefix_spec pre last (m.take (k - (pre.length + 1))) hlast hpre 10 0 e b (by omega) (by omega) hW'
+    unfold protoReadNext
+    rw [hscan]
+    simp only
+    have hPlen : (putVarint m.length).length = pre.length + 1 := by rw [hP]; simp
+    have hb1 : b1.data = putVarint m.length ++ b1.data.drop (pre.length + 1) := by
+      have h1 : (b1.data ++ e1.data).take (pre.length + 1) = pre ++ [last] := by
+        rw [hc]; exact List.take_left' (by simp)
+      rw [List.take_append_of_le_length (by omega)] at h1
+      rw [hP, ← h1, List.take_append_drop]
+    have hX : b1.data.drop (pre.length + 1) ++ e1.data = m.take (k - (pre.length + 1)) := by
+      have h2 : (b1.data ++ e1.data).drop (pre.length + 1) = m.take (k - (pre.length + 1)) := by
+        rw [hc]; exact List.drop_left' (by simp)
+      rwa [List.drop_append_of_le_length (by omega)] at h2
+    have hgv : getVarint b1.data = some (m.length, pre.length + 1) := by
+      rw [hb1, getVarint_put _ hv, hPlen]
+    rw [hgv]
+    simp only
+    have hnot : ¬ (m.length > maxInt ∨ m.length > limit) := by omega
+    simp only [hnot, if_false]
+    generalize hXd : b1.data.drop (pre.length + 1) = X at hX
+    have hXl : X.length + e1.data.length = k - (pre.length + 1) := by
+      have : (X ++ e1.data).length = (m.take (k - (pre.length + 1))).length := by rw [hX]
+      simp only [List.length_append, List.length_take] at this
+      omega
+    have hshort : X.length < m.length := by omega
+    simp only [hshort, if_true]
+    generalize hb3 : (if Buf.cap { data := X, spare := b1.spare } < m.length
+        then ({ data := X, spare := growcap (Buf.cap { data := X, spare := b1.spare }) m.length - X.length } : Buf)
+        else { data := X, spare := b1.spare }) = b3
+    have hb3d : b3.data = X := by rw [← hb3]; split <;> rfl
+    have hb3c : m.length ≤ b3.cap := by
+      rw [← hb3]
+      split
+      · rename_i hlt
+        simp only [Buf.cap] at hlt ⊢
+        rcases growcap_ge (X.length + b1.spare) m.length with h | h <;> omega
+      · rename_i hge; omega
+    have hnp : ¬ (m.length > b3.cap) := by omega
+    simp only [hnp, if_false]
+    have hrf := readFull_spec e1 b3 m.length
+    generalize hrfr : readFull e1 b3 m.length = rf at hrf
+    obtain ⟨b4, res, e2⟩ := rf
+    simp only at hrf
+    cases res with
+    | some err =>
+      refine ⟨b3, err, e2, rfl, ?_⟩
+      intro he
+      -- ReadFull never reports a plain io.EOF
+      have := readFull_err_kind' e1 b3 m.length err (by rw [hrfr])
+      rw [he] at this; cases this
+    | none =>
+      obtain ⟨h1, h2, _⟩ := hrf.2 rfl
+      rw [hb3d] at h1
+      have : (b4.data ++ e2.data).length = (X ++ e1.data).length := by rw [h1]
+      simp only [List.length_append] at this
+      omega
+
 /-- reading a whole stream by repeated `ReadNext` calls, carrying `dst[n:]` over (with any
 spare capacity) to the next call. -/
 def protoSeq (limit : Nat) : Nat → List Nat → Env → Buf → List Bytes × Option RErr
